@@ -349,20 +349,29 @@ class LFRicStencils(LFRicCollection):
 
         if self._unique_extent_vars:
             if self._kernel:
-                for arg in self._kern_args:
+                # The size of a 'cross2d' stencil is an array (one entry
+                # per branch), that of any other stencil is a scalar. Each
+                # variable is declared with the shape of its own stencil.
+                array_vars = []
+                scalar_vars = []
+                for arg in self._unique_extent_args:
+                    name = self.dofmap_size_symbol(self._symbol_table,
+                                                   arg).name
                     if arg.descriptor.stencil['type'] == "cross2d":
-                        parent.add(DeclGen(
-                            parent, datatype="integer",
-                            kind=api_config.default_kind["integer"],
-                            dimension="4",
-                            entity_decls=self._unique_extent_vars, intent="in"
-                        ))
+                        array_vars.append(name)
                     else:
-                        parent.add(DeclGen(
-                            parent, datatype="integer",
-                            kind=api_config.default_kind["integer"],
-                            entity_decls=self._unique_extent_vars,
-                            intent="in"))
+                        scalar_vars.append(name)
+                if array_vars:
+                    parent.add(DeclGen(
+                        parent, datatype="integer",
+                        kind=api_config.default_kind["integer"],
+                        dimension="4",
+                        entity_decls=array_vars, intent="in"))
+                if scalar_vars:
+                    parent.add(DeclGen(
+                        parent, datatype="integer",
+                        kind=api_config.default_kind["integer"],
+                        entity_decls=scalar_vars, intent="in"))
             elif self._invoke:
                 parent.add(DeclGen(
                     parent, datatype="integer",
